@@ -476,6 +476,24 @@ def _eq(left: object, right: object) -> bool:  # noqa: PLR0911
     if isinstance(left, bool):
         return isinstance(right, bool) and left == right
 
+    # Compare arrays and objects recursively so nested Booleans are never
+    # equal to numbers either.
+    if isinstance(left, list) and isinstance(right, list):
+        if len(left) != len(right):
+            return False
+        for a, b in zip(left, right):  # noqa: B905
+            if not _eq(a, b):
+                return False
+        return True
+
+    if isinstance(left, dict) and isinstance(right, dict):
+        if len(left) != len(right):
+            return False
+        for key, val in left.items():
+            if key not in right or not _eq(val, right[key]):
+                return False
+        return True
+
     return left == right
 
 
